@@ -48,6 +48,8 @@ pub enum B {
     Eq(S, S),
     /// identity of the value: `=` in both theories (floats: same bits, one NaN, -0 ≠ +0)
     Same(S, S),
+    /// the same Float32 value up to the sign of zero: `(or (= a b) (fp.eq a b))` (NaN only equals NaN)
+    Ident(S, S),
     IsNan(S),
     IsInf(S),
     Not(Box<B>),
